@@ -1,10 +1,13 @@
-(* C10 - Copyright field line ranges locate exactly the field's content (partial:
-   the composition through merged unknown paragraphs / folded licenses and the
-   document-level shift law are established by co-execution and by the executable
-   statement, not proved). *)
+(* C10 - Copyright field line ranges locate exactly the field's content (partial: proved -
+   where recorded ranges come from, that they are tight for the field, that numbers increase
+   across fields and paragraphs, and the shift law for the WHOLE copyright object including
+   merged unknown paragraphs and folded licenses, for every text in which each paragraph has
+   a field with a value; how ranges compose through merge and fold - start of the first,
+   end of the last merged paragraph - is read off the model and decided by co-execution and by
+   the executable statement, not proved as a separate theorem). *)
 From Coq Require Import String.
 From Coq Require Import NArith List Bool Sorted.
-From DI Require Import Result PyStr Deb822 Debcon Copyright Deb822Facts CopyrightFacts RangeFacts.
+From DI Require Import Result PyStr Deb822 Debcon Copyright Deb822Facts CopyrightFacts RangeFacts Dep5Facts ShiftFacts.
 Import ListNotations.
 Open Scope N_scope.
 
@@ -40,6 +43,28 @@ Theorem C10_shift_partial : forall k t,
   groups (repeat 10 k ++ t) = rmap (map (map (shift_field (N.of_nat k)))) (groups t).
 Proof. exact groups_shift. Qed.
 Print Assumptions C10_shift_partial.
+
+(* inserting k blank lines at the top shifts every recorded range of the copyright object by
+   exactly k and changes nothing else: same paragraphs, types, typed fields, extra data - through
+   renaming, merging of unknown paragraphs and folding into an empty license *)
+Theorem C10_shift_whole_object : forall k t gs, groups t = Ok gs -> Forall (fun g => live g <> []) gs ->
+  from_text (repeat 10 k ++ t) = rmap (map (shift_para (N.of_nat k))) (from_text t).
+Proof. exact from_text_shift. Qed.
+Print Assumptions C10_shift_whole_object.
+
+Example C10_shift_recovery_paths :
+  let t := lit "junk one
+junk two
+
+more junk
+
+License:
+
+folded text
+" in
+  from_text (repeat 10 3 ++ t) = rmap (map (shift_para 3)) (from_text t) /\
+  rmap (map p_lines) (from_text t) = Ok [[(lit "unknown", (1, 4))]; [(lit "license", (8, 8))]].
+Proof. vm_compute. split; reflexivity. Qed.
 
 Example C10_value_less_declaration :
   exists ps, from_text (lit "Files: *" ++ [10] ++ lit "Copyright: x" ++ [10] ++ lit "License:" ++ [10; 10] ++
